@@ -106,6 +106,12 @@ class Analyzer:
                     if r is not None:
                         al[v['d']] = r
                         changed = True
+        # chains (a reference bound to another reference that was resolved later): follow them to the end
+        for d in list(al):
+            seen = 0
+            while al[d] is not None and al[d][0] == 'var' and al[d][1] in al and al[d][1] != d and seen < 8:
+                al[d] = al[al[d][1]] + tuple(al[d][2:])
+                seen += 1
         f._alias_map = al
         return al
 
@@ -165,6 +171,29 @@ class Analyzer:
             return None
         return None
 
+    def handle_view(self, f, d, depth=0):
+        """a local reference bound to the object a handle points to (`const level &l = *lvl;`, also transitively):
+        members selected on it are members of the handle's object"""
+        dd = f.decl(d)
+        if not dd.get('ref') or dd.get('k') not in ('local',) or depth > 6:
+            return False
+        init = None
+        for n in f.nodes.values():
+            if n['k'] == 'decl':
+                for v in n['v']:
+                    if v['d'] == d and v.get('init') is not None:
+                        init = v['init']
+        e = unwrap(init) if init is not None else None
+        derefs = 0
+        while e is not None and e['k'] == 'un' and e['op'] in ('*', '->'):
+            e = unwrap(e['e'])
+            derefs += 1
+        if e is None or e['k'] != 'ref':
+            return False
+        if derefs and self.is_handle(f, e['d']):
+            return True
+        return derefs == 0 and self.handle_view(f, e['d'], depth + 1)
+
     def is_handle(self, f, d):
         dd = f.decl(d)
         t = f.unit.type(dd.get('ct'))
@@ -188,7 +217,7 @@ class Analyzer:
                 bb = b
                 while bb is not None and bb['k'] == 'un' and bb['op'] in ('->', '*'):
                     bb = unwrap(bb['e'])
-                if bb is not None and bb['k'] == 'ref' and self.is_handle(f, bb['d']):
+                if bb is not None and bb['k'] == 'ref' and (self.is_handle(f, bb['d']) or self.handle_view(f, bb['d'])):
                     r = self.root_of_expr(f, bb)
                     return (r + (last_mem,)) if r is not None else None
                 continue
